@@ -21,6 +21,8 @@ const verifPkg = "mosn.io/mosn/pkg/zzverif/verif"
 // ReflectVal stands in for reflect.Value of an interface value.
 type ReflectVal struct{ I Iface }
 
+type condWaiter struct{ woken bool }
+
 // SliceDataPtr / StrDataPtr model unsafe.SliceData / unsafe.StringData results.
 type SliceDataPtr struct{ S []Value }
 type StrDataPtr struct{ S Str }
@@ -457,25 +459,46 @@ func init() {
 		}
 		return nil
 	})
+	// sync.Cond: every Wait takes a ticket; Broadcast wakes every ticket taken so far, Signal wakes
+	// exactly one of the goroutines waiting at that moment - which one is a fork (the language does
+	// not promise an order)
 	reg("(*sync.Cond).Wait", func(e *Engine, fr *frame, fn *ssa.Function, a []Value) Value {
 		p := e.derefCheck(fr, a[0])
 		L := (*e.fieldPtr(fr, fn, a[0], "L")).(Iface)
 		unlock := e.findMethod(L.T, "Unlock")
 		lock := e.findMethod(L.T, "Lock")
-		gen := e.mutexes[p]
+		w := &condWaiter{}
+		if e.condWaiters == nil {
+			e.condWaiters = map[*Value][]*condWaiter{}
+		}
+		e.condWaiters[p] = append(e.condWaiters[p], w)
 		e.callFunction(fr, unlock, []Value{L.V}, nil)
-		e.blockUntil(func() bool { return e.mutexes[p] != gen }, "Cond.Wait")
+		e.blockUntil(func() bool { return w.woken }, "Cond.Wait")
 		e.callFunction(fr, lock, []Value{L.V}, nil)
 		return nil
 	})
-	condSig := func(e *Engine, fr *frame, fn *ssa.Function, a []Value) Value {
+	reg("(*sync.Cond).Broadcast", func(e *Engine, fr *frame, fn *ssa.Function, a []Value) Value {
 		p := e.derefCheck(fr, a[0])
-		e.mutexes[p]++
+		for _, w := range e.condWaiters[p] {
+			w.woken = true
+		}
+		if e.condWaiters != nil {
+			delete(e.condWaiters, p)
+		}
 		e.yield()
 		return nil
-	}
-	reg("(*sync.Cond).Signal", condSig)
-	reg("(*sync.Cond).Broadcast", condSig)
+	})
+	reg("(*sync.Cond).Signal", func(e *Engine, fr *frame, fn *ssa.Function, a []Value) Value {
+		p := e.derefCheck(fr, a[0])
+		ws := e.condWaiters[p]
+		if len(ws) > 0 {
+			i := e.Choose(len(ws))
+			ws[i].woken = true
+			e.condWaiters[p] = append(append([]*condWaiter{}, ws[:i]...), ws[i+1:]...)
+		}
+		e.yield()
+		return nil
+	})
 	reg("sync.NewCond", nil)
 	delete(intrinsics, "sync.NewCond")
 
